@@ -10,7 +10,10 @@ import sys
 import time
 
 VERIF = '/verif'
-REPO = '/repo'
+# development aid for seeded-change experiments only: PV_REPO points the check at a scratch worktree and PV_TAG
+# keeps its scratch files / evidence / replays apart (build/mut/<tag>/).  The registered commands never set them.
+REPO = os.environ.get('PV_REPO') or '/repo'
+TAG = os.environ.get('PV_TAG') or ''
 COQ = os.path.join(VERIF, 'coq')
 RUN = os.path.join(COQ, 'Run')
 PY = '/venv/bin/python'
@@ -102,7 +105,7 @@ def print_assumptions(pid):
     """{theorem: 'Closed under the global context' | axiom text}, via a generated Run file."""
     ths = theorems_of(pid)
     os.makedirs(RUN, exist_ok=True)
-    path = os.path.join(RUN, 'assum_%s.v' % pid)
+    path = os.path.join(RUN, 'assum_%s%s.v' % (pid, TAG))
     with open(path, 'w') as f:
         f.write('Require Import PV.Props.%s.\n' % pid)
         for t in ths:
@@ -175,7 +178,7 @@ class Ctx:
         self.search = False
         self.corr_relations = []
         os.makedirs(os.path.join(VERIF, 'build', 'run'), exist_ok=True)
-        self._mark = os.path.join(VERIF, 'build', 'run', pid + '.current.json')
+        self._mark = os.path.join(VERIF, 'build', 'run', pid + TAG + '.current.json')
 
     thorough = property(lambda self: self.tier == 'thorough')
 
